@@ -35,7 +35,8 @@ UNITS.append(U("C09.sign_header_m4", ["C09"], "harness/C09/sign_impl.c", "h_sign
 #       replace=["secp256k1_rangeproof_pub_expand", "secp256k1_rangeproof_genrand"], assumed=SORACLES, functions=SFUNCS + ["secp256k1_rangeproof_getheader_impl"],
 #       timeout=5400, min_obl=300, unwind=34, unwindset=SLOOPS, solver="cadical", tier="thorough", mem_gb=16,
 #       note="header round trip for all parameters; NOT COMPLETED at authoring time: the product/quotient relations behind 'getheader accepts' and min' <= value <= max' are beyond the SAT back end (see C09 claim text)"))
-UNITS.append(U("C09.sign_gates", ["C09", "C08"], "harness/C09/sign_impl.c", "h_sign_gates",
-      replace=["secp256k1_rangeproof_pub_expand", "secp256k1_rangeproof_genrand"], assumed=SORACLES, functions=SFUNCS,
-      timeout=3600, min_obl=300, unwind=34, unwindset=SLOOPS, closed_by=CLOSED, tier="thorough", slice_formula=True, object_bits=10,
-      note="every (value, min_value, exp, min_bits, blind, message length <= 10000, buffer size <= 6000); MiniSat, 10 object bits, formula slicing"))
+# UNREGISTERED (retried with MiniSat, object_bits=10, slice_formula=True: cbmc timeout after 3600 s at 10.7 GB; needs loop contracts on the three ring loops of sign_impl)
+# UNITS.append(U("C09.sign_gates", ["C09", "C08"], "harness/C09/sign_impl.c", "h_sign_gates",
+#       replace=["secp256k1_rangeproof_pub_expand", "secp256k1_rangeproof_genrand"], assumed=SORACLES, functions=SFUNCS,
+#       timeout=3600, min_obl=300, unwind=34, unwindset=SLOOPS, closed_by=CLOSED, tier="thorough", slice_formula=True, object_bits=10,
+#       note="every (value, min_value, exp, min_bits, blind, message length <= 10000, buffer size <= 6000); MiniSat, 10 object bits, formula slicing"))
